@@ -4,6 +4,9 @@
      rfi n m hint x <xp: n> <yp: n pairs>          -> rfi <re> <im> seg=<new hint> cond=<float>
      run n m hint k <xp> <yp> <q: k>               -> run <re> <im> ...          (F = fault)
      spline np <xs> <ys> k <q: k>                  -> spline <v> ...  | spline EINVAL   (E = EINVAL)
+     sigma nx <xs: nx> np <ys: np> k <q: k>        -> sigma <v> ...   | sigma EINVAL    (SigmaSplineModel:
+                                                    sigma of a correlated parameter; nx = 0 when the
+                                                    frequency vector is not given / ignored)
    cond = min over the recorded recurrence steps of |den|^2 / (|dx1 d[j]|^2 + |dx2 c[j+1]|^2)
    (cancellation in the denominators; the check asserts the 1e-12 tolerance only when it is
    not tiny).  Output: exact rationals. *)
@@ -50,6 +53,15 @@ let () =
            (match spline_interp !min_dx xs ys qs with
             | None -> print_string "spline EINVAL\n"
             | Some l -> Printf.printf "spline %s\n" (String.concat " " (List.map (function None -> "E" | Some v -> string_of_qc v) l)))
+         | "sigma" ->
+           let nx = int_of_string (next ()) in
+           let xs = times nx qc in
+           let np = int_of_string (next ()) in
+           let ys = times np qc in
+           let k = int_of_string (next ()) in let qs = times k qc in
+           (match sigma_interp !min_dx xs ys qs with
+            | None -> print_string "sigma EINVAL\n"
+            | Some l -> Printf.printf "sigma %s\n" (String.concat " " (List.map (function None -> "E" | Some v -> string_of_qc v) l)))
          | _ -> Printf.printf "unknown %s\n" op);
         flush stdout
       end
